@@ -128,6 +128,17 @@ def build_harness(bmi2=False):
     return _built[key]
 
 
+def run_on_records(paths, cmd):
+    """zcat <paths> | cmd.  The parent closes its copy of the pipe, so that zcat is not left blocked on a full pipe
+    when the consumer dies half-way (a library abort under test must end the check, not hang it)."""
+    cat = subprocess.Popen(["zcat"] + list(paths), stdout=subprocess.PIPE)
+    p = subprocess.Popen(cmd, stdin=cat.stdout, stdout=subprocess.PIPE, stderr=subprocess.PIPE, text=True)
+    cat.stdout.close()
+    out, err = p.communicate()
+    cat.wait()
+    return subprocess.CompletedProcess(cmd, p.returncode, out, err)
+
+
 def java_env(extra=""):
     env = dict(os.environ)
     env["JAVA_TOOL_OPTIONS"] = (env.get("JAVA_TOOL_OPTIONS", "") + " " + extra).strip()
